@@ -195,7 +195,8 @@ class Checker:
             self.log_msg("Could not locate torrent content %s.", path)
             raise FileNotFoundError(path)
 
-        root = Path(path)
+        # "." and "x/.." name a directory as well as its absolute path does
+        root = Path(os.path.abspath(path))
         if root.name == self.name:
             inner = root / self.name
             if (root.is_dir() and inner.exists()
